@@ -68,6 +68,12 @@ BASE = {
                               "let j2 = dog & bird;\nlet all3 = cat & j2;\nres / on get -> <any3> :: <status=404, sum3> :: <status=500, all3>;\n"},
         "inline": ["other", "o2", "j2"], "identity": ["other", "o2"], "module": ["dog", "bird", "other"],
     },
+    # parameters and a rec binder spelled like declarations of the module (and like the built-in function): the binder shadows them
+    "binders-spelled-like-declarations": {
+        "files": {"main.oal": "let item = { 'name str };\nlet page item = { 'data [item], 'count int };\nlet wrap concat = { 'w concat };\nlet chain = rec item { 'v num, 'next? item };\nlet both item page = { 'l item, 'r page };\nres /p on get -> <page int>;\nres /w on get -> <wrap bool>;\nres /c on get -> <chain>;\nres /i on get -> <item>;\nres /b on get -> <both str num>;\n"},
+        "inline": [], "identity": [], "module": [],
+        "extra": {"binders-given-fresh-names": {"main.oal": "let item = { 'name str };\nlet page elem = { 'data [elem], 'count int };\nlet wrap inner = { 'w inner };\nlet chain = rec link { 'v num, 'next? link };\nlet both left right = { 'l left, 'r right };\nres /p on get -> <page int>;\nres /w on get -> <wrap bool>;\nres /c on get -> <chain>;\nres /i on get -> <item>;\nres /b on get -> <both str num>;\n"}},
+    },
     "two-recursive-schemas": {
         "files": {"main.oal": "let tree = { 'id int, 'kids [tree] };\nlet chain = { 'id str, 'rest [chain] };\nres /t on get -> <tree>;\nres /c on get -> <chain>;\n"},
         "inline": [], "identity": [], "module": ["tree"], "split": [["tree"], ["chain"]],
@@ -281,6 +287,8 @@ def check():
         # ... and on every instantiation of a rec getting a name of its own (shared with C09)
         c09.naming_lemmas(o, L, S, M, E, (M.one(r"^(eval::)?eval_recursion$"), M.one(r"^eval::<impl[^>]*>::node_identifier$"), M.one(r"^eval::<impl[^>]*>::push_scope$"),
                                          M.sel("eval", "new", ret=r"eval::Context")), structural, on_sat)
+        # ... and on a binder shadowing whatever else has its name: both lookups answer with the innermost scope (shared with C08)
+        c08.lookup_lemmas(o, L, S, M, E, on_sat, 4 if tier() == "quick" else 6)
     except KeyError as exn:
         o.inconc(str(exn)[:200])
 
